@@ -22,6 +22,7 @@ verus! {
 //@part numeric
 //@part ast
 //@part display
+//@part exprreply
 //@autoslots
 } // verus!
 fn main() {}
